@@ -61,7 +61,9 @@ pub fn c03_case(u: &mut Unstructured) -> c03::Case {
     let mut ops = vec![];
     for _ in 0..n {
         let idx: usize = u.arbitrary().unwrap_or(0);
-        ops.push(match u.int_in_range(0..=25u8).unwrap_or(0) {
+        ops.push(match u.int_in_range(0..=29u8).unwrap_or(0) {
+            26..=28 => c03::Op::NewMixedResult(u.arbitrary().unwrap_or(0)),
+            29 => c03::Op::ScratchBuf(u.int_in_range(0..=39usize).unwrap_or(0), u.arbitrary().unwrap_or(0)),
             0..=2 => c03::Op::NewResult(u.arbitrary().unwrap_or(true)),
             3..=5 => c03::Op::NewOption(u.arbitrary().unwrap_or(true)),
             6 | 7 => c03::Op::NewBoxSlice(u.int_in_range(0..=4usize).unwrap_or(0)),
